@@ -12,6 +12,7 @@ import NPModel.Refine.Repack
 import NPModel.Spec.Frame
 import NPModel.Refine.Repacked
 import NPModel.Refine.QueryRows
+import NPModel.Refine.SamplesFrame
 namespace NP.C07
 open NP
 variable {α : Type}
@@ -114,6 +115,23 @@ theorem query_nested_end_to_end (F : NFrame Cell) (e : Expr) (nest : String) (c 
         (masks.map fun m => (m.filter id).length) ∧
       col.rows.length = F.index.length :=
   query_nested_refines F e nest c hl hnc hc h hch hidx vals hev
+
+/-- non-vacuity of `query_nested_end_to_end`: the sample frame (two chunks, the first a slice into
+    a larger buffer, an empty row) and the condition `n.a > 2` meet every hypothesis; the outcome on
+    the three records is `[False, True, True]` -/
+example : Samples.qexpr.layers = [some "n"] ∧ Samples.qframe.nestedColumns.contains "n" = true ∧
+    Samples.qframe.nest? "n" = .ok Samples.qcol ∧ Samples.qcol.chunks ≠ [] ∧
+    Samples.qframe.index.length = Samples.qcol.len ∧
+    evalAll (ordFlat (colLists Samples.qcol) (Samples.qcol.rows.map Row.len)).len
+      (recordLookup (ordFlat (colLists Samples.qcol) (Samples.qcol.rows.map Row.len)) "n") Samples.qexpr
+      = .ok [some (.bool false), some (.bool true), some (.bool true)] := by
+  refine ⟨by decide, by decide, rfl, by decide, by decide, by decide⟩
+
+example : Samples.qcol.Clean := by
+  refine ⟨by decide, by decide, by decide, ?_, by decide⟩
+  intro s hs
+  simp only [Samples.qcol, List.mem_cons, List.not_mem_nil, or_false] at hs
+  rcases hs with rfl | rfl <;> (unfold PStruct.noHidden; decide)
 
 /-- non-vacuity of `repack_step_row_by_row`: three rows keeping 2, 0 and 1 records of two fields -/
 example :
